@@ -27,10 +27,12 @@ func init() {
 			"(destroy-fan-out) destroyOnCluster sends the local destroy to every member of the routing table and returns any error; destroyLocalDMap visits every partition id below PartitionCount, destroys the primary fragment in every iteration (the only allowed skip is 'DMap unknown on this member') and the backup fragment whenever ReplicaCount > 1, has no success return inside the loop, then forgets the DMap handle; " +
 			"(fragment-key-is-per-dmap) fragments are loaded, stored and wiped under the exact per-DMap fragment name (\"dmap.\"+name, an injective function of the DMap name); no code matches fragment names by a non-constant prefix; Destroy wipes exactly the fragment loaded under dm.fragmentName; " +
 			"(fragment-name-normalised) a fragment-map key (\"dmap.<name>\") reaches DMap lookups and the migration pack only after the prefix was stripped exactly once, and reaches fragment-map operations unstripped — otherwise operations are applied to a DMap with a different name; " +
+			"(pooled-commands-released-once) a pipeline that hands command slices back to the process-wide pool empties the map that held them before returning, so no slice is pooled twice and shared between the pipelines of two DMaps; " +
 			"(engine-not-shared) every fragment gets its storage from Engine.Fork, and Fork builds fresh tables and index maps (only the table size and the configuration come from the parent).",
 		Run: func(r *core.Run) {
 			c19DestroyFanOut(r)
 			c19DestroyLayers(r)
+			c19PooledCommandsReleasedOnce(r)
 			c19FragmentKey(r)
 			fragmentNameNormalised(r)
 			c19EngineNotShared(r)
@@ -387,6 +389,13 @@ type nameSink struct {
 	descr string
 }
 
+func stripDescr(count int) string {
+	if count < 0 {
+		return "the name rewritten by something other than strings.TrimPrefix(key, \"dmap.\") (must be: the registration prefix removed exactly once, nothing else touched)"
+	}
+	return fmt.Sprintf("the \"dmap.\" prefix stripped %d times (must be exactly once)", count)
+}
+
 func fragmentNameNormalised(r *core.Run) {
 	p := r.P
 	impls := implIndex(p)
@@ -425,7 +434,7 @@ func fragmentNameNormalised(r *core.Run) {
 							total++
 							r.Check(count == 1, "fragment-name-normalised", n.next(origin+" -> fragmentPack.Name"), site(r, instrPos(x)),
 								"the migrated fragment carries the bare DMap name (prefix stripped once)",
-								fmt.Sprintf("the migration pack's Name receives a fragment-map key with the \"dmap.\" prefix stripped %d times (must be exactly once): the receiver merges the data into a DMap with a different name", count))
+								"the migration pack's Name receives a fragment-map key with "+stripDescr(count)+": the receiver merges the data into a DMap with a different name")
 						}
 					}
 					// captured by a closure cell: follow loads of that cell
@@ -454,18 +463,31 @@ func fragmentNameNormalised(r *core.Run) {
 					continue
 				}
 				switch q {
-				case "strings.TrimPrefix":
+				case "strings.TrimPrefix", "strings.CutPrefix":
 					if k, ok := c.Args[1].(*ssa.Const); ok && argIdx == 0 && k.Value != nil && strings.Trim(k.Value.ExactString(), `"`) == "dmap." {
 						if call, ok := x.(*ssa.Call); ok {
 							follow(call, count+1, depth, origin)
 						}
+						continue
+					}
+				}
+				if o.Pkg() != nil && o.Pkg().Path() == "strings" {
+					// any other rewriting of the key (ReplaceAll, TrimLeft, a different prefix ...)
+					// is not "the registration prefix removed once": a name that merely contains
+					// the prefix text comes out as a different DMap's name
+					if call, ok := x.(*ssa.Call); ok {
+						if bt, isB := call.Type().Underlying().(*types.Basic); isB && bt.Kind() == types.String {
+							follow(call, -100, depth, origin+" via strings."+o.Name())
+						}
 					}
 					continue
+				}
+				switch q {
 				case dmapPkg + ".(*Service).getOrCreateDMap", dmapPkg + ".(*Service).getDMap", dmapPkg + ".(*Service).NewDMap", dmapPkg + ".(*Service).fragmentName":
 					total++
 					r.Check(count == 1, "fragment-name-normalised", n.next(origin+" -> "+o.Name()), site(r, instrPos(x)),
 						"the DMap is looked up under its bare name (prefix stripped once)",
-						fmt.Sprintf("a fragment-map key reaches %s with the \"dmap.\" prefix stripped %d times (must be exactly once): the operation (eviction deletes, migration) is applied to a DMap with a different name — e.g. expired keys are never deleted from the backups", o.Name(), count))
+						"a fragment-map key reaches "+o.Name()+" with "+stripDescr(count)+": the operation (eviction deletes, migration) is applied to a DMap with a different name — e.g. expired keys are never deleted from the backups")
 					continue
 				}
 				if o.Pkg() != nil && o.Pkg().Path() == "sync" && (o.Name() == "Delete" || o.Name() == "Load" || o.Name() == "Store") {
